@@ -89,7 +89,18 @@ fn pick_size(rng: &mut Rng, big: bool) -> usize {
 }
 
 /// Runs one scripted sequence on the current thread; returns the records.
-fn run_sequence(seed: u64, len: usize, big: bool, clear_every: u64, null_pct: u64) -> Vec<Record> {
+/// Largest size `Layout::from_size_align` accepts for this alignment, or one of its neighbours below.
+fn edge_size(rng: &mut Rng, align: usize) -> usize {
+    let max = isize::MAX as usize - (align - 1);
+    match rng.below(5) {
+        0 | 1 => max,
+        2 => max - 1,
+        3 => max - align,
+        _ => 1usize << 62,
+    }
+}
+
+fn run_sequence(seed: u64, len: usize, big: bool, clear_every: u64, null_pct: u64, edge: bool) -> Vec<Record> {
     let mut rng = Rng::new(seed);
     let mut records: Vec<Record> = Vec::with_capacity(len + 1);
     // live blocks: (fake ptr, size, align)
@@ -127,7 +138,7 @@ fn run_sequence(seed: u64, len: usize, big: bool, clear_every: u64, null_pct: u6
         let want_null = rng.below(100) < null_pct;
         let (req, want_ret) = match op {
             0 | 1 => {
-                let size = pick_size(&mut rng, big);
+                let size = if edge && rng.below(3) == 0 { edge_size(&mut rng, align) } else { pick_size(&mut rng, big) };
                 next_ptr += 0x1000;
                 let ret = if want_null { 0 } else if rng.below(50) == 0 { usize::MAX - 7 } else { next_ptr };
                 (Call { op, size, align, ptr: 0, new_size: 0 }, ret)
@@ -138,7 +149,8 @@ fn run_sequence(seed: u64, len: usize, big: bool, clear_every: u64, null_pct: u6
                 } else {
                     live[rng.below(live.len() as u64) as usize]
                 };
-                let new_size = match rng.below(6) {
+                let new_size = match rng.below(if edge { 9 } else { 6 }) {
+                    6..=8 => edge_size(&mut rng, al),
                     0 => size,
                     1 => 0,
                     2 => size / 2,
@@ -244,9 +256,10 @@ fn run_config(out: &mut dyn Write, line: &str) {
     let big = c.u64("big", 1) != 0;
     let clear_every = c.u64("clear", 0);
     let null_pct = c.u64("nullpct", 5);
+    let edge = c.u64("edge", 0) != 0;
     let mut all: Vec<Vec<Record>> = Vec::new();
     if threads <= 1 && c.u64("spawn", 0) == 0 {
-        all.push(run_sequence(seed, len, big, clear_every, null_pct));
+        all.push(run_sequence(seed, len, big, clear_every, null_pct, edge));
     } else {
         let barrier = std::sync::Arc::new(std::sync::Barrier::new(threads));
         let handles: Vec<_> = (0..threads)
@@ -254,7 +267,7 @@ fn run_config(out: &mut dyn Write, line: &str) {
                 let barrier = barrier.clone();
                 std::thread::spawn(move || {
                     barrier.wait();
-                    run_sequence(seed.wrapping_mul(31).wrapping_add(t as u64), len, big, clear_every, null_pct)
+                    run_sequence(seed.wrapping_mul(31).wrapping_add(t as u64), len, big, clear_every, null_pct, edge)
                 })
             })
             .collect();
